@@ -485,7 +485,8 @@ void SimulateMsp430::update_reg(int reg_index, int mode, int bw)
 
   if (mode == 3) // @Rn+
   {
-    if (bw == BW_WORD)
+    // SP always increments by 2 to stay word aligned.
+    if (bw == BW_WORD || reg_index == 1)
     {
       reg[reg_index] += 2;
     }
